@@ -637,6 +637,34 @@ def rule_G(ctx):
             found.setdefault('in-place', (ff, 'filtering a feature into itself gives the same values as filtering it into another feature (each window reads the input values)',
                                           {'signal': [None if v != v else v for v in xs], 'kernel': wl, 'output': [None if (isinstance(v, float) and v != v) else v for v in got] if isinstance(got, list) else repr(got),
                                            'expected': [None if v != v else v for v in want]}))
+    # the SAME asymmetric weight list object given to several filterings in a row (and to one call that filters two features): every one of
+    # them applies the weights in the order they were given
+    for wl in ([1.0, 2.0, 5.0], [3.0, 0.0, 1.0, 0.0, 0.5]):
+        xs = signals['generic']
+        if len(wl) > len(xs):
+            continue
+        tot = sum(wl)
+        w_ = [v / tot for v in wl]
+        D = len(wl) // 2
+        want = [xs[i] if (i < D or i >= len(xs) - D) else mean_window(xs, w_, i, True) for i in range(len(xs))]
+        t = track_of(xs)
+        shared = list(wl)
+        n_cases += 1
+        try:
+            outs = []
+            for name in ('b1', 'b2', 'b3'):
+                t.call('operate', fn['Operator'].FILTER, 'a', shared, name)
+                outs.append((name, t.call('getAnalyticalFeature', name)))
+        except orders.Unsupported as ex:
+            raise shape_error('Filter.execute not interpretable: %s' % ex, ff.loc())
+        except orders.PROGRAM_ERRORS as ex:
+            found.setdefault('fails', (ff, 'filtering does not fail on a signal at least as long as the window', {'kernel': wl, 'history': 'the same list object used three times', 'exception': '%s: %s' % (type(ex).__name__, str(ex)[:160])}))
+            continue
+        for k_, (name, got) in enumerate(outs):
+            if not (isinstance(got, list) and len(got) == len(want) and all(close(a_, b_) for a_, b_ in zip(got, want))):
+                found.setdefault('kernel-reuse', (ff, 'a weight list used for several filterings is applied the same way each time (the weights in the order given, renormalised)',
+                                                  {'signal': xs, 'kernel': wl, 'use number': k_ + 1, 'output': got if isinstance(got, list) else repr(got), 'expected': want}))
+                break
     # an even number of weights is rejected
     t = track_of(signals['generic'])
     n_cases += 1
